@@ -32,6 +32,14 @@ type c05exp struct {
 	loose, optional bool
 }
 
+// c05appEvent is an event type of the application's own.
+type c05appEvent struct {
+	id int64
+	t  time.Time
+}
+
+func (e *c05appEvent) When() time.Time { return e.t }
+
 type c05poll struct {
 	ev     tcell.Event
 	ret    int64
@@ -80,6 +88,7 @@ func C05(r *core.Run) {
 	core.ParallelW(nc, 8, func(ci int) { c05channel(r, ci) })
 	c05stall(r)
 	c05pendingStall(r)
+	c05escResize(r)
 	r.Count("schedule_points_hit", atomic.LoadInt64(&sc.hits))
 	r.Set("race_reports_in_this_run", "written to replays/C05-race.* by the race detector (decided by C10)")
 }
@@ -204,6 +213,7 @@ func c05history(r *core.Run, hi int) {
 		ok        bool
 	}
 	posts := make([][]post, np)
+	var nilPostsOK int64
 	var pwg sync.WaitGroup
 	for p := 0; p < np; p++ {
 		pwg.Add(1)
@@ -213,9 +223,23 @@ func c05history(r *core.Run, hi int) {
 			n := 20 + prg.IntN(150)
 			for i := 0; i < n; i++ {
 				id := int64(p)<<32 | int64(i)
-				ev := tcell.NewEventInterrupt(id)
+				var ev tcell.Event = tcell.NewEventInterrupt(id)
+				switch {
+				case i%7 == 3:
+					// an application-defined event type
+					ev = &c05appEvent{id: id, t: time.Now()}
+				case i%7 == 5:
+					// an interrupt without payload: no id, counted
+					ev = tcell.NewEventInterrupt(nil)
+				}
 				c := c05now()
 				err := s.PostEvent(ev)
+				if i%7 == 5 {
+					if err == nil {
+						atomic.AddInt64(&nilPostsOK, 1)
+					}
+					continue
+				}
 				posts[p] = append(posts[p], post{id: id, call: c, ret: c05now(), ok: err == nil})
 				if prg.IntN(3) == 0 {
 					runtime.Gosched()
@@ -329,6 +353,7 @@ func c05history(r *core.Run, hi int) {
 	ei := 0
 	delivered := map[int64]int{}
 	lastPer := map[int64]int64{}
+	nilDelivered := int64(0)
 	for pi, p := range polled {
 		if p.whenP != nil {
 			fail("when:panic:"+fmt.Sprintf("%T", p.ev), fmt.Sprintf("When() of a delivered %T panicked: %v", p.ev, p.whenP))
@@ -337,7 +362,20 @@ func c05history(r *core.Run, hi int) {
 		switch e := p.ev.(type) {
 		case *tcell.EventResize, *tcell.EventError:
 			continue
+		case *c05appEvent:
+			delivered[e.id]++
+			pp := e.id >> 32
+			if last, ok := lastPer[pp]; ok && e.id <= last {
+				fail("post:reordered", fmt.Sprintf("poster %d: event %d delivered after %d", pp, e.id&0xffffffff, last&0xffffffff))
+				return
+			}
+			lastPer[pp] = e.id
+			continue
 		case *tcell.EventInterrupt:
+			if e.Data() == nil {
+				nilDelivered++
+				continue
+			}
 			id, _ := e.Data().(int64)
 			delivered[id]++
 			pp := id >> 32
@@ -412,6 +450,10 @@ func c05history(r *core.Run, hi int) {
 		return
 	}
 	// (2) posts
+	if ok := atomic.LoadInt64(&nilPostsOK); ok != nilDelivered {
+		fail("post:count:interrupt-without-payload", fmt.Sprintf("%d PostEvent(NewEventInterrupt(nil)) calls returned nil, %d such events were delivered", ok, nilDelivered))
+		return
+	}
 	for p := range posts {
 		for _, po := range posts[p] {
 			n := delivered[po.id]
@@ -838,4 +880,110 @@ func goroutineParkedIn(fn string, goid int64) bool {
 		}
 	}
 	return false
+}
+
+// c05escResize: a lone ESC is input like any other: it is delivered (as Esc, once the escape
+// timeout has passed) also when a resize notification is handled in the meantime, and the
+// key typed next is delivered on its own. Bounded progress: the verdict on "never delivered"
+// is the structural one (every byte read, every tcell goroutine parked in two dumps).
+func c05escResize(r *core.Run) {
+	ti := Pristine("xterm-256color")
+	rounds := r.Pick(12, 200)
+	for k := 0; k < rounds; k++ {
+		ls, err := startScreen(ti, 30, 6, nil)
+		if err != nil {
+			r.Inconclusive(err.Error())
+			return
+		}
+		evc := make(chan NEv, 64)
+		go func() {
+			for {
+				ev := ls.s.PollEvent()
+				if ev == nil {
+					close(evc)
+					return
+				}
+				if _, isResize := ev.(*tcell.EventResize); !isResize {
+					evc <- normEv(ev)
+				}
+			}
+		}()
+		next := func() (NEv, string) {
+			select {
+			case e, ok := <-evc:
+				if !ok {
+					return NEv{}, "closed"
+				}
+				return e, ""
+			case <-time.After(15 * time.Second):
+				if lost, w := ls.sentinelLost(); lost {
+					return NEv{}, "idle: " + w
+				}
+				return NEv{}, "watchdog"
+			}
+		}
+		pre := []string{"", "a", "\x1b[A"}[k%3]
+		ls.tty.Feed([]byte(pre + "\x1b"))
+		// the resize notification arrives while the ESC is pending; every third round keeps the size
+		nres := 1 + k%3
+		for i := 0; i < nres; i++ {
+			if k%3 != 2 {
+				ls.tty.SetSize(30+(k+i)%2, 6+i%2)
+			}
+			ls.tty.NotifyNow()
+			for j := 0; j < 50*(k%4); j++ {
+				runtime.Gosched()
+			}
+		}
+		var got []NEv
+		want := len(normEvsOfString(pre)) + 1
+		verdict := ""
+		for len(got) < want && verdict == "" {
+			e, why := next()
+			switch {
+			case why == "":
+				got = append(got, e)
+			case strings.HasPrefix(why, "idle"):
+				verdict = fmt.Sprintf("the lone ESC was never delivered although the library is %s (delivered so far: %s)", why, evsStr(got))
+			default:
+				verdict = "INCONCLUSIVE"
+			}
+		}
+		if verdict == "" {
+			if last := got[len(got)-1]; !(last.T == "key" && last.Key == tcell.KeyEsc && last.Mod == 0) {
+				verdict = fmt.Sprintf("expected Esc after the escape timeout, delivered %s", evsStr(got))
+			}
+		}
+		if verdict == "" {
+			ls.tty.Feed([]byte("x"))
+			e, why := next()
+			switch {
+			case why == "" && !(e.T == "key" && e.Key == tcell.KeyRune && e.Rune == 'x' && e.Mod == 0):
+				verdict = fmt.Sprintf("the key typed after the delivered Esc arrived as %s, expected the plain rune x", e)
+			case strings.HasPrefix(why, "idle"):
+				verdict = "the key typed after the Esc was never delivered (" + why + ")"
+			case why != "":
+				verdict = "INCONCLUSIVE"
+			}
+		}
+		ls.fini()
+		r.Case(fmt.Sprintf("escresize|%d", k))
+		r.Count("esc_resize_rounds", 1)
+		if verdict == "INCONCLUSIVE" {
+			r.Inconclusive("esc+resize round: watchdog")
+		} else if verdict != "" {
+			r.Violate("input:lone-esc+resize", fmt.Sprintf("input %q, then %d resize notification(s) while the ESC is pending, then silence: %s", pre+"\x1b", nres, verdict), nil)
+			return
+		}
+	}
+}
+
+// normEvsOfString: how many events the plain prefix of the scenario produces (a rune or one key).
+func normEvsOfString(s string) []int {
+	switch s {
+	case "":
+		return nil
+	default:
+		return []int{1}
+	}
 }
